@@ -281,6 +281,11 @@ class C01(Scenario):
                     w.bump("probe_empty_side_merge")
                 self._probes(w, a, b)
                 self._expect(w, observe.observe(out), cover, "add", si, nmerge)
+                from .pool import branch_shortcuts
+
+                bad = branch_shortcuts(out)
+                if bad is not None:
+                    raise self.violation("Branch", "add", "stale-shortcut:i%d" % bad[1], "the sum's Branch attribute i%d is not its member %d" % (bad[1], bad[1]), si)
             elif op == "comm":
                 if not w.has(st["l"], st["r"]):
                     continue
